@@ -1,5 +1,5 @@
 """C07 (clones are faithful, self-contained, independent): leaf clone contracts proved from the real AST (pyvc suite 'clone':
-Wire.clone, InnerPin.clone, OuterPin.clone) + bounded stand-in on Netlist/Library/Definition/Instance/Port/Cable/Wire/pin .clone()."""
+Wire / InnerPin / OuterPin / Port / Cable / Instance .clone) + bounded stand-in on Netlist/Library/Definition/Instance/Port/Cable/Wire/pin .clone()."""
 from props import _designb, _pv
 LEVEL = 'other'
 PID = 'C07'
@@ -13,11 +13,13 @@ def run(rep, tier, seed):
                        'oracles (canon / elab / occurrence enumeration / Inv) read public attributes only and are calibrated against an AD-level elaborator']
     expl_b = rep.explanation
     failed = _pv.run_suite(rep, PID, 'clone', tier)
-    rep.explanation = ('leaf level (P): Wire.clone / InnerPin.clone / OuterPin.clone return a NEW object of the same class that belongs to nothing and is '
-                       'connected to nothing, never raise, leave every existing object exactly as it was (all fields, order included) and preserve Inv, for '
-                       'all heaps satisfying Inv (three-phase protocol _clone(memo) / _clone_rip with the memo as an object-keyed local dictionary, OuterPin '
-                       'keys structural); the compound clones (Port, Cable, Instance, Definition, Library, Netlist: loops over a memo that grows) are decided '
-                       'by the ' + expl_b)
+    rep.explanation = ('element level (P): Wire / InnerPin / OuterPin / Port / Cable / Instance .clone return a NEW object of the same class (with new pins / wires / '
+                       'outer pins of its own, as many as the original has) that belongs to nothing and is connected to nothing, carries the original\'s scalar '
+                       'attributes, data and (Instance) reference, never raise, leave every existing object exactly as it was (all fields, order included; '
+                       'Instance.clone adds the clone to its definition\'s reference set, as documented) and preserve Inv, for all heaps satisfying Inv '
+                       '(three-phase protocol _clone(memo) / _clone_rip with the memo as an object-keyed local dictionary, OuterPin keys structural, loops cut '
+                       'at sidecar invariants); Definition / Library / Netlist clones (nested loops over the whole tree, rip-and-replace through the memo) are '
+                       'decided by the ' + expl_b)
     fails = _designb.run_designs(rep, PID, tier, seed, RULE, extra_bounds={'element_clone_roots_per_kind': '<= 4 libraries/definitions, <= 3 of each other kind per design', 'edit_groups': ['data', 'structure', 'transform(uniquify+flatten)', 'dismantle'], 'name_lookups_per_design': 10})
     _designb.report_failures(rep, PID, fails)
     hit = set(v['key'] for v in rep.violations)
